@@ -165,13 +165,13 @@ func (d *Device) handleABSEvent(ie *input.InputEvent) {
 	}
 
 	if value < 0 {
-		if value > -deadzone {
+		if value >= -deadzone { // (the edge itself is rest: a deadzone of 1.0 covers the whole travel, end stop included)
 			value = 0
 		} else {
 			value = (value + deadzone) / (1.0 - deadzone)
 		}
 	} else {
-		if value < deadzone {
+		if value <= deadzone {
 			value = 0
 		} else {
 			value = (value - deadzone) / (1.0 - deadzone)
